@@ -631,6 +631,12 @@ pub enum TextSpace {
     Nest {
         cases: Vec<(&'static str, usize)>,
     },
+    /// Every corpus program and every generated single-module program (kind-agnostic
+    /// expressions of <= 2 constructors x 27 contexts, fragments) with one matched pair of
+    /// parentheses removed.
+    Unparen {
+        texts: std::sync::Arc<Vec<(String, String)>>,
+    },
     /// Every corpus program with one token of the full alphabet inserted at one site.
     Ins {
         progs: Vec<(&'static Prog, u64)>,
@@ -655,6 +661,100 @@ pub fn p_corpus() -> Value {
 pub fn p_mut(dev: usize, max_tokens: usize) -> Value {
     json!({"space": "mut", "deviations": dev, "max_tokens": max_tokens})
 }
+pub fn p_unparen() -> Value {
+    json!({"space": "unparen"})
+}
+
+/// Matched pairs of parentheses of a text, outside strings, comments and annotations.
+fn paren_pairs(text: &str) -> Vec<(usize, usize)> {
+    let b = text.as_bytes();
+    let mut i = 0;
+    let mut stack = Vec::new();
+    let mut out = Vec::new();
+    while i < b.len() {
+        match b[i] {
+            b'"' => {
+                i += 1;
+                while i < b.len() && b[i] != b'"' {
+                    i += 1;
+                }
+            }
+            b'`' => {
+                i += 1;
+                while i < b.len() && b[i] != b'`' {
+                    i += 1;
+                }
+            }
+            b'#' => {
+                while i < b.len() && b[i] != b'\n' {
+                    i += 1;
+                }
+            }
+            b'/' if i + 1 < b.len() && b[i + 1] == b'/' => {
+                while i < b.len() && b[i] != b'\n' {
+                    i += 1;
+                }
+            }
+            b'/' if i + 1 < b.len() && b[i + 1] == b'*' => {
+                i += 2;
+                while i + 1 < b.len() && !(b[i] == b'*' && b[i + 1] == b'/') {
+                    i += 1;
+                }
+                i += 1;
+            }
+            b'(' => stack.push(i),
+            b')' => {
+                if let Some(o) = stack.pop() {
+                    out.push((o, i));
+                }
+            }
+            _ => {}
+        }
+        i += 1;
+    }
+    out.sort();
+    out
+}
+
+fn unparen_texts() -> Vec<(String, String)> {
+    let mut sources: Vec<(String, String)> = Vec::new();
+    for p in corpus().iter() {
+        sources.push((p.name.clone(), p.text.clone()));
+    }
+    let all = crate::space::agnostic_exprs(2);
+    for sz in [1usize, 2] {
+        for (ei, e) in all[sz].iter().enumerate() {
+            for c in 0..crate::space::N_CONTEXTS {
+                let t = crate::gen::print(&crate::space::context(c, e)).texts[0].1.clone();
+                sources.push((format!("expression {sz}/{ei} in context {c}"), t));
+            }
+        }
+    }
+    for f in 0..crate::frags::NAMES.len() {
+        for (i, p) in crate::frags::fragment(f, false).programs.iter().enumerate() {
+            if p.modules.len() == 1 {
+                sources.push((format!("{} #{i}", crate::frags::NAMES[f]), crate::gen::print(p).texts[0].1.clone()));
+            }
+        }
+    }
+    let mut out = Vec::new();
+    let mut seen = std::collections::HashSet::new();
+    for (name, t) in sources {
+        for (k, (o, c)) in paren_pairs(&t).into_iter().enumerate() {
+            let mut v = String::with_capacity(t.len());
+            v.push_str(&t[..o]);
+            v.push(' ');
+            v.push_str(&t[o + 1..c]);
+            v.push(' ');
+            v.push_str(&t[c + 1..]);
+            if seen.insert(v.clone()) {
+                out.push((v, format!("{name} without its pair of parentheses #{k}")));
+            }
+        }
+    }
+    out
+}
+
 pub fn p_ins(max_tokens: usize) -> Value {
     json!({"space": "ins", "max_tokens": max_tokens})
 }
@@ -694,6 +794,7 @@ impl TextSpace {
                 }
                 TextSpace::Mut { dev, progs, total }
             }
+            "unparen" => TextSpace::Unparen { texts: std::sync::Arc::new(unparen_texts()) },
             "ins" => {
                 let max = p["max_tokens"].as_u64().unwrap() as usize;
                 let mut progs = Vec::new();
@@ -722,6 +823,7 @@ impl TextSpace {
             TextSpace::Mut { total, .. } => *total,
             TextSpace::Nest { cases } => cases.len() as u64,
             TextSpace::Ins { total, .. } => *total,
+            TextSpace::Unparen { texts } => texts.len() as u64,
         }
     }
 
@@ -768,6 +870,7 @@ impl TextSpace {
                 let (name, d) = cases[idx as usize];
                 (family_text(name, d), format!("family {name} at {d}"))
             }
+            TextSpace::Unparen { texts } => texts[idx as usize].clone(),
             TextSpace::Ins { progs, .. } => {
                 let k = progs.partition_point(|(_, base)| *base <= idx) - 1;
                 let (p, base) = progs[k];
